@@ -87,6 +87,10 @@ def escape_signature(exc):
     on the translated tree (function compileTranslatedTree) also carries its message, since
     there the function does not identify the construct."""
     fn = where_raised(exc)
+    if isinstance(exc, RecursionError):
+        # the innermost function varies with the depth at which the limit is hit: name the stage
+        names = {fr.name for fr in traceback.extract_tb(exc.__traceback__)}
+        fn = "compiler" if "compileScenicAST" in names else "python-compile" if "compileTranslatedTree" in names else "parser"
     sig = f"escape:{type(exc).__name__}:{fn}"
     if fn == "generic_visit":  # the compiler's "node needs visitor" assertion: name the node
         import re
@@ -104,8 +108,13 @@ def escape_signature(exc):
 
 def where_raised(exc):
     tb = traceback.extract_tb(exc.__traceback__)
+    import re
+
     for fr in reversed(tb):
         if "/scenic/" in fr.filename or "/pegen/" in fr.filename:
+            # generated helper rules are renumbered by any grammar edit: name the enclosing rule
+            if re.fullmatch(r"_(tmp|loop\d|gather)_\d+|memoize_wrapper|memoize_left_rec_wrapper|<lambda>", fr.name):
+                continue
             return fr.name
     return tb[-1].name if tb else "?"
 
@@ -148,7 +157,7 @@ def judge(text):
     except SyntaxError as e:
         return ("violation", f"unwrapped:{type(e).__name__}:{where_raised(e)}", f"raw {type(e).__name__}: {e}")
     except RecursionError as e:
-        return ("violation", f"escape:RecursionError:{where_raised(e)}", "RecursionError on a short input")
+        return ("violation", escape_signature(e), f"RecursionError on an input of {len(text)} characters")
     except Exception as e:
         return ("violation", escape_signature(e), f"{type(e).__name__}: {str(e)[:300]}")
 
@@ -515,6 +524,19 @@ def run(ctx):
             g_rej += 1
         else:
             add_violation(r["sig"], r["detail"], text, "grammar form " + origin, "frontend")
+    # ---- literal alphabets (numbers, adjacent string literals) and nesting depth
+    lforms = M.literal_and_nesting_forms()
+    l_counts = {}
+    for (origin, text), r in zip(lforms, ctx.pmap(work_seed, lforms, chunksize=16)):
+        fam = origin.split(":")[0]
+        c = l_counts.setdefault(fam, {"accepted": 0, "rejected": 0, "violation": 0})
+        c[r["status"]] += 1
+        if r["status"] == "violation":
+            add_violation(r["sig"], r["detail"], text, "literal/nesting form " + origin, "frontend")
+    for fam in ("number", "strings", "nesting"):
+        c = l_counts.get(fam, {})
+        if not c.get("accepted") or not (c.get("rejected") or c.get("violation")):
+            raise HarnessError(f"vacuous literal/nesting family {fam}: {c}")
     if g_acc == 0 or g_rej == 0 or len(g_roots_accepted) < gstats["roots"] // 2:
         raise HarnessError(f"vacuous grammar-derived forms: {g_acc} accepted, {g_rej} rejected, {len(g_roots_accepted)}/{gstats['roots']} rules with an accepted form")
 
@@ -598,7 +620,7 @@ def run(ctx):
             ctx.violation(sig, f"{det}\ninput ({org}):\n{cand}", {"mode": mode, "text": cand})
 
     ctx.cov.update(
-        evaluations=len(seeds) + len(form_items) + len(gforms) + tot["n"],
+        evaluations=len(seeds) + len(form_items) + len(gforms) + len(lforms) + tot["n"],
         distinct_nontrivial=tot["rejected"],
         rule="0 mutations: every seed, every expansion of every grammar form of docs/reference, and every Scenic-specific rule of "
         "scenic.gram expanded with each optional element absent/present, each repetition 0/1/2 times and each alternative (nested "
@@ -626,6 +648,11 @@ def run(ctx):
         grammar_rules_with_an_accepted_form=len(g_roots_accepted),
         grammar_rules_without_accepted_form=sorted(set(gstats["bodies_per_root"]) - g_roots_accepted),
         grammar_rules_truncated=gstats["truncated_rules"],
+        literal_and_nesting_forms=len(lforms),
+        literal_and_nesting_outcomes=l_counts,
+        literal_alphabets={"numbers": M.NUMBER_ALPHABET, "number_positions": len(M.NUMBER_POSITIONS), "string_prefixes": M.STRING_PREFIXES,
+                           "string_positions": len(M.STRING_POSITIONS), "nesting_depths": list(M.NESTING_DEPTHS),
+                           "nesting_shapes": sorted(M.NESTING_SHAPES) + ["block-" + b for b in M.BLOCK_SHAPES]},
         mutation_seed_candidates=n_cands,
         mutation_seeds=len(chosen),
         mutation_seed_features_covered=len(covered),
